@@ -41,6 +41,7 @@ def setup_repo(patch_pools=True):
     c2p = sys.modules["amr_kitchen.chk2plt.chk2plt"]      # the package re-exports a class of the same name
     _SETUP["real_pathos"] = chefmod.Pool
     _SETUP["real_c2p"] = c2p.Pool
+    sys.dont_write_bytecode = True
     if patch_pools:
         chefmod.Pool = pools.DillSchedPool
         c2p.Pool = pools.SchedPool
